@@ -6,7 +6,7 @@ CONSTANTS
   Design = "repaired"
   MaxOps = 40
   NObj = 2
-  EMCopy = "deep"
+  EMCopy = "shallow"
   MaxEvals = 4
 SPECIFICATION PU_Spec
 VIEW PU_View
